@@ -24,10 +24,12 @@ for d in seeded/*/; do
   fi
   for tier in quick thorough; do
     start=$(date +%s)
-    log=$(VERIF_REPO="$tmp/repo" ./check "$id" --tier "$tier" --no-evidence 2>&1); rc=$?
+    # (a seeded defect can make cases very slow; this script is a development aid, so it gives up instead of waiting)
+    if [ "$tier" = quick ]; then lim=600; else lim=${SEEDED_THOROUGH_LIMIT:-1800}; fi
+    log=$(VERIF_REPO="$tmp/repo" timeout "$lim" ./check "$id" --tier "$tier" --no-evidence 2>&1); rc=$?
     secs=$(( $(date +%s) - start ))
     keys=$(echo "$log" | grep -E "^  key=" | head -3 | sed 's/^  key=//' | tr '\n' ' ')
-    if [ $rc -eq 1 ]; then res="DETECTED"; elif [ $rc -eq 0 ]; then res="missed"; else res="harness error (exit $rc)"; fi
+    if [ $rc -eq 1 ]; then res="DETECTED"; elif [ $rc -eq 0 ]; then res="missed"; elif [ $rc -eq 124 ]; then res="gave up after ${lim}s"; else res="harness error (exit $rc)"; fi
     echo "| $name | $id | $tier | $res | $secs | $keys |" >> "$tmpout"
     echo "$name $id $tier $res ${secs}s $keys"
     [ $rc -ne 0 ] && break
